@@ -426,6 +426,13 @@ class SigmaDetection(ParentChainMixin):
                             if k not in merged_dict:  # key doesn't exists in merged dict: just add
                                 merged_dict[k] = v
                             else:  # key collision, now things get complicated...
+                                if "neq" in k.split("|")[1:]:
+                                    # 'all' below a negation reads as NOT (a AND b), not as the
+                                    # conjunction of the two negated items
+                                    raise sigma_exceptions.SigmaValueError(
+                                        f"Can't merge negated items '{k}' into one item.",
+                                        source=self.source,
+                                    )
                                 if "|all" in k:  # key contains 'all' modifier
                                     mk = merged_dict[k]
                                     if not isinstance(
@@ -443,13 +450,6 @@ class SigmaDetection(ParentChainMixin):
                                     else:
                                         mkl.append(v)
                                 else:  # key collision without all modifier: trying to merge both keys into one and-linked key
-                                    if "neq" in k.split("|")[1:]:
-                                        # 'all' below a negation reads as NOT (a AND b), not as the
-                                        # conjunction of the two negated items
-                                        raise sigma_exceptions.SigmaValueError(
-                                            f"Can't merge negated items '{k}' into one item.",
-                                            source=self.source,
-                                        )
                                     ev = merged_dict[k]  # already existing value
 
                                     # Value normalization: extract value from single-valued lists
